@@ -79,3 +79,98 @@ Example C03_nonvacuous :
   exists d, parse (of_string "query Q($a: [Int!] = [1]) @d { a: b(x: ""s"") ... on T { c } ...F }") = Ok (d, false)
             /\ exec_only d = true.
 Proof. eexists. split; [vm_compute; reflexivity | reflexivity]. Qed.
+
+(* ---- table generated from the source (harness/gen.go writes Gen/Punctuators.v from
+   language/lexer/lexer.go before every check run; these are re-proved then) ---- *)
+From GQL Require Gen.Punctuators Tables.LexerTable Proofs.TablesLexer.
+
+(* The lexer model's punctuators as a table: punct1 is the lookup in Tables.LexerTable.punct_table
+   for every code point, a byte of the table is read as a one-byte token of that kind wherever it
+   stands, "..." is SPREAD and a '.' not followed by ".." is an error. *)
+Theorem C03_punctuator_table_is_model :
+  (forall code, punct1 code = Tables.LexerTable.punct_lookup code Tables.LexerTable.punct_table) /\
+  (forall code k, Tables.LexerTable.punct_lookup code Tables.LexerTable.punct_table = Some k ->
+     forall fuel s pos, read_token fuel (code :: s) pos = Ok (mktok k pos (pos + 1) [], s, pos + 1)%N) /\
+  (forall fuel s pos, starts_with Tables.LexerTable.spread_rest s = false ->
+     read_token fuel (Tables.LexerTable.spread_first :: s) pos = Err).
+Proof.
+  split; [exact Proofs.TablesLexer.punct1_is_table|].
+  split; [exact Proofs.TablesLexer.read_token_punct|exact Proofs.TablesLexer.read_token_dot_alone].
+Qed.
+Print Assumptions C03_punctuator_table_is_model.
+
+(* The punctuator table of lexer.go -- every `return makeToken(KIND, position, position+N, "")` of
+   readToken's `switch code`, with the bytes its guard demands -- is the model's table; the
+   translator understood every entry; the TokenKind constants are the model's kinds in order,
+   numbered from 1. *)
+Theorem C03_gen_punctuators :
+  Gen.Punctuators.punctuators = Tables.LexerTable.model_punctuators /\
+  Gen.Punctuators.punctuators_unrecognised = 0%N /\
+  Gen.Punctuators.token_kinds
+  = combine (map Tables.LexerTable.tkind_name Tables.LexerTable.tkinds) (map N.of_nat (seq 1 20)).
+Proof.
+  repeat split;
+  first [ vm_compute; reflexivity
+        | fail 1 "generated-table obligation C03_gen_punctuators no longer holds against the regenerated table: the punctuator cases of lexer.readToken or the TokenKind constants (Gen/Punctuators.v) are not the table of the lexer model (Tables/LexerTable.v)" ].
+Qed.
+Print Assumptions C03_gen_punctuators.
+
+(* Every generated entry is lexed by the model as the source says: its first byte followed by
+   its lookahead gives one token of its kind and length. *)
+Theorem C03_gen_punctuators_lexed : forall codes kind len look c,
+  In (codes, kind, len, look) Gen.Punctuators.punctuators -> In c codes ->
+  forall fuel s pos, exists k, Tables.LexerTable.tkind_name k = kind /\
+    read_token fuel (c :: look ++ s) pos = Ok (mktok k pos (pos + len) [], s, pos + len)%N.
+Proof.
+  intros codes kind len look c H Hc fuel s pos.
+  rewrite (proj1 C03_gen_punctuators) in H. vm_compute in H.
+  repeat (destruct H as [H|H]; [injection H as <- <- <- <-; destruct Hc as [<-|[]]|]); [..|contradiction];
+    first [ match goal with
+            | |- exists k, _ /\ read_token _ (?c :: _) _ = _ =>
+              let o := eval vm_compute in (Tables.LexerTable.punct_lookup c Tables.LexerTable.punct_table) in
+              match o with
+              | Some ?kk => exists kk; split;
+                            [reflexivity|exact (Proofs.TablesLexer.read_token_punct c kk eq_refl fuel s pos)]
+              end
+            end
+          | exists SPREAD; split; [reflexivity|exact (Proofs.TablesLexer.read_token_spread fuel s pos)] ].
+Qed.
+Print Assumptions C03_gen_punctuators_lexed.
+
+(* Each punctuator is spelled the way tokenDescription prints its kind (error messages and the
+   printer use these): description = first byte followed by the lookahead, token length = its length. *)
+Theorem C03_gen_punctuators_spelled :
+  forallb (Tables.LexerTable.entry_spelled Gen.Punctuators.token_descriptions) Gen.Punctuators.punctuators = true.
+Proof.
+  first [ vm_compute; reflexivity
+        | fail 1 "generated-table obligation C03_gen_punctuators_spelled no longer holds against the regenerated table: some punctuator of lexer.readToken is not spelled as tokenDescription prints its kind (Gen/Punctuators.v)" ].
+Qed.
+Print Assumptions C03_gen_punctuators_spelled.
+
+(* The other cases of the switch send exactly the model's name-start bytes to readName, '-' and
+   the digits to readNumber, the double quote to the string readers; the switch has no default
+   clause (everything else falls through to the "Unexpected character" error). *)
+Theorem C03_gen_dispatch : forall c, (c < 256)%N ->
+  Tables.LexerTable.dispatch_to "readName" Gen.Punctuators.dispatch c = is_name_start c /\
+  Tables.LexerTable.dispatch_to "readNumber" Gen.Punctuators.dispatch c = ((c =? 45)%N || is_digit c)%bool /\
+  Tables.LexerTable.dispatch_to "readString" Gen.Punctuators.dispatch c = (c =? 34)%N /\
+  Tables.LexerTable.dispatch_to "readBlockString" Gen.Punctuators.dispatch c = (c =? 34)%N /\
+  Gen.Punctuators.switch_has_default = false.
+Proof.
+  intros c Hc.
+  pose (P := fun c : N =>
+    (Bool.eqb (Tables.LexerTable.dispatch_to "readName" Gen.Punctuators.dispatch c) (is_name_start c) &&
+     Bool.eqb (Tables.LexerTable.dispatch_to "readNumber" Gen.Punctuators.dispatch c) ((c =? 45)%N || is_digit c) &&
+     Bool.eqb (Tables.LexerTable.dispatch_to "readString" Gen.Punctuators.dispatch c) (c =? 34)%N &&
+     Bool.eqb (Tables.LexerTable.dispatch_to "readBlockString" Gen.Punctuators.dispatch c) (c =? 34)%N &&
+     negb Gen.Punctuators.switch_has_default)%bool).
+  assert (HP : P c = true).
+  { apply Proofs.TablesLexer.forall_bytes256; [|exact Hc].
+    first [ vm_compute; reflexivity
+          | fail 1 "generated-table obligation C03_gen_dispatch no longer holds against the regenerated table: the readName / readNumber / readString cases of lexer.readToken (Gen/Punctuators.v) are not the start bytes of the lexer model" ]. }
+  unfold P in HP. repeat rewrite Bool.andb_true_iff in HP.
+  destruct HP as [[[[H1 H2] H3] H4] H5].
+  apply Bool.eqb_prop in H1, H2, H3, H4. apply Bool.negb_true_iff in H5.
+  repeat split; assumption.
+Qed.
+Print Assumptions C03_gen_dispatch.
